@@ -284,7 +284,7 @@ def tlc_error_excerpt(out):
 
 def generate(spec_module, constants, invariants, workers=1, timeout=900, init="Init", next_="Next", extra_cfg="", names=None):
     """Generator run: returns (module json, scenarios, stats)."""
-    names = (spec_module in ("MC_Gen",)) if names is None else names
+    names = (spec_module in ("MC_Gen", "MC_Deep")) if names is None else names
     cfg = "CONSTANTS\n" + ("  NameCodes <- TheNames\n" if names else "") + "".join("  %s\n" % c for c in constants) + \
           "INIT %s\nNEXT %s\nINVARIANTS %s\nCHECK_DEADLOCK FALSE\n%s" % (init, next_, " ".join(invariants), extra_cfg)
     rc, out, stats = run_tlc(spec_module, cfg, workers=workers, timeout=timeout, names=names)
@@ -465,7 +465,7 @@ def judge(trace_module, mod_json, scns, events, constants=("Mod <- TheMod",), in
                     n += 1
         json.dump(mod_json, open(mp, "w"))
         jobs.append((k, sp, tp, mp, {v: kk for kk, v in idmap.items()}, n))
-    names = trace_module in ("Trace_Codec",)
+    names = trace_module in ("Trace_Codec", "MC_Deep")
     cfg = "CONSTANTS\n" + ("  NameCodes <- TheNames\n" if names else "") + "".join("  %s\n" % c for c in constants) + "INIT TInit\nNEXT TNext\n" + \
           ("INVARIANTS %s\n" % " ".join(invariants) if invariants else "") + \
           "POSTCONDITION TraceAccepted\nCHECK_DEADLOCK FALSE\n"
